@@ -217,6 +217,13 @@ func alterOnce(rt *rapid.T, x *xTx, pv primaryView) alteration {
 	fs := cloneFields(x.fields)
 	kind := rapid.SampledFrom(altKinds).Draw(rt, "altKind")
 	ne := len(x.entries)
+	if ne == 0 {
+		switch kind {
+		case "key.flip", "key.resize", "kLen", "md.flip", "md.drop", "md.add", "mdLen", "val.flip", "val.resize", "val.empty", "vLen",
+			"entries.swap", "entries.drop", "entries.dup", "entries.foreign":
+			return alteration{} // a transaction without entries
+		}
+	}
 	e := 0
 	if ne > 1 {
 		e = rapid.IntRange(0, ne-1).Draw(rt, "altEntry")
